@@ -40,45 +40,95 @@ theorem C16_applies_only_current_plan (v : Variant) (c : PipeCfg) (presented : L
   intro hne
   exact h (C16_stale_plan_refused v c presented allow env s old hex hne)
 
+/-! ### the window between the two status reads -/
+
+theorem flipState_cases (c : PipeCfg) (env : LiveEnv) (s : St) :
+    flipState c env s = s ∨ (runningNow s c.id = false ∧ env.becomesRunning = true ∧ flipState c env s = setStatusRaw c.id 1 s) := by
+  unfold flipState
+  cases h1 : runningNow s c.id <;> cases h2 : env.becomesRunning <;> simp
+
+theorem flipState_of_running (c : PipeCfg) (env : LiveEnv) (s : St) (h : runningNow s c.id = true) :
+    flipState c env s = s := by
+  unfold flipState; simp [h]
+
+theorem flipState_export (v : Variant) (c : PipeCfg) (env : LiveEnv) (s : St) : (flipState c env s).next = s.next := by
+  rcases flipState_cases c env s with h | ⟨_, _, h⟩
+  · rw [h]
+  · rw [h]; unfold setStatusRaw; split <;> rfl
+
+/-- the status the gate sees: running at the first read, or started in the window. -/
+theorem runningAtGate (c : PipeCfg) (env : LiveEnv) (s : St) (p : Pl) (hp : s.mem.pls c.id = some p) :
+    runningNow (flipState c env s) c.id = (isRunningStatus p.status || env.becomesRunning) := by
+  have h1 : runningNow s c.id = isRunningStatus p.status := by simp [runningNow, hp]
+  cases hr : isRunningStatus p.status with
+  | true => rw [flipState_of_running c env s (by rw [h1, hr]), h1, hr]; rfl
+  | false =>
+    cases hb : env.becomesRunning with
+    | false =>
+      have : flipState c env s = s := by unfold flipState; simp [hb]
+      rw [this, h1, hr]; rfl
+    | true =>
+      have : flipState c env s = setStatusRaw c.id 1 s := by unfold flipState; simp [h1, hr, hb]
+      rw [this]
+      simp [runningNow, setStatusRaw, hp, isRunningStatus]
+
 /-- C16.running_needs_authorisation — "a running pipeline is touched only with operator
-authorisation": a non-empty plan against a running (or degraded / recovering) pipeline without
-the operator flag is refused, nothing is touched, no lifecycle call is made. Full strength. -/
+authorisation": if the pipeline is running (or degraded / recovering) *at the moment the gate
+is evaluated* — at the first status read, or started by an external `Start` in the window
+before the re-read — a non-empty plan without the operator flag is refused: the result is
+`unauth`, the state is the one the external world left (nothing of the apply), and no stop /
+import / start event happens. Full strength: every state, configuration, lifecycle script. -/
 theorem C16_running_needs_authorisation (v : Variant) (c : PipeCfg) (env : LiveEnv) (s : St) (old : Option PipeCfg)
-    (p : Pl) (hex : exportPl v s.mem c.id = .ok old) (hp : s.mem.pls c.id = some p)
-    (hrun : isRunningStatus p.status = true) (hne : build v 1 old c ≠ []) :
-    applyPlanLive v c (build v 1 old c) false env s = (.error .unauth, s, []) := by
+    (hex : exportPl v s.mem c.id = .ok old) (hrun : runningNow (flipState c env s) c.id = true)
+    (hne : build v 1 old c ≠ []) :
+    applyPlanLive v c (build v 1 old c) false env s = (.error .unauth, flipState c env s, []) := by
   unfold applyPlanLive
   have : (build v 1 old c).isEmpty = false := by
     cases h : build v 1 old c with
     | nil => exact absurd h hne
     | cons _ _ => rfl
-  simp [hex, this, hp, hrun]
+  simp [hex, this, hrun]
+
+/-- the same in terms of the pre-state: the pipeline exists and (is running ∨ becomes running
+in the window) ⇒ refused; the only difference to the pre-state is the external status flip. -/
+theorem C16_running_needs_authorisation_toctou (v : Variant) (c : PipeCfg) (env : LiveEnv) (s : St) (old : Option PipeCfg)
+    (p : Pl) (hex : exportPl v s.mem c.id = .ok old) (hp : s.mem.pls c.id = some p)
+    (hrun : (isRunningStatus p.status || env.becomesRunning) = true) (hne : build v 1 old c ≠ []) :
+    (applyPlanLive v c (build v 1 old c) false env s).1 = .error .unauth ∧
+    (applyPlanLive v c (build v 1 old c) false env s).2.2 = [] ∧
+    ((applyPlanLive v c (build v 1 old c) false env s).2.1 = s ∨
+     (env.becomesRunning = true ∧ (applyPlanLive v c (build v 1 old c) false env s).2.1 = setStatusRaw c.id 1 s)) := by
+  rw [C16_running_needs_authorisation v c env s old hex (by rw [runningAtGate c env s p hp]; exact hrun) hne]
+  refine ⟨rfl, rfl, ?_⟩
+  rcases flipState_cases c env s with h | ⟨_, hb, h⟩
+  · exact Or.inl h
+  · exact Or.inr ⟨hb, h⟩
 
 /-- C16.drain_before_mutate — "and then only after it has fully drained": on the restart path
-(running, authorised, plan not live-eligible) the first thing that happens is `StopAndWait`; if
-it fails nothing has been touched; the import (and its commit) happens only after a successful
-stop, on the stopped pipeline. Full strength for this path. -/
+(running at the gate, authorised, plan not live-eligible) the first thing that happens is
+`StopAndWait`; if it fails nothing has been touched; the import (and its commit) happens only
+after a successful stop, on the stopped pipeline. Full strength for this path (`sg` = the state
+after the status-read window). -/
 theorem C16_drain_before_mutate (v : Variant) (c : PipeCfg) (env : LiveEnv) (s : St) (old : Option PipeCfg)
-    (p : Pl) (hex : exportPl v s.mem c.id = .ok old) (hp : s.mem.pls c.id = some p)
-    (hrun : isRunningStatus p.status = true) (hne : build v 1 old c ≠ [])
-    (hnl : liveEligible (build v 1 old c) = false) :
+    (hex : exportPl v s.mem c.id = .ok old) (hrun : runningNow (flipState c env s) c.id = true)
+    (hne : build v 1 old c ≠ []) (hnl : liveEligible (build v 1 old c) = false) :
     let r := applyPlanLive v c (build v 1 old c) true env s
     r.2.2.head? = some .stop ∧
-    (env.stopOk = false → r = (.error .life, s, [.stop])) ∧
+    (env.stopOk = false → r = (.error .life, flipState c env s, [.stop])) ∧
     (Ev.commit ∈ r.2.2 → env.stopOk = true) := by
   have hemp : (build v 1 old c).isEmpty = false := by
     cases h : build v 1 old c with
     | nil => exact absurd h hne
     | cons _ _ => rfl
   unfold applyPlanLive
-  simp only [hex, hemp, hp, hrun, hnl, ne_eq, not_true_eq_false, if_false, Option.map_some, Option.getD_some,
+  simp only [hex, hemp, hrun, hnl, ne_eq, not_true_eq_false, if_false,
     Bool.not_true, Bool.and_false, Bool.false_eq_true, List.nil_append]
   cases hs : env.stopOk with
   | false => simp
   | true =>
     simp only [Bool.not_true, Bool.false_eq_true, if_false]
     unfold tImport
-    rcases transactionalImport v c (setStatusRaw c.id 3 s) with ⟨r, s'⟩
+    rcases transactionalImport v c (setStatusRaw c.id 3 (flipState c env s)) with ⟨r, s'⟩
     cases r with
     | error e => simp
     | ok u => cases u; cases env.startOk <;> simp
@@ -89,32 +139,43 @@ restart-path apply fails, either nothing was touched (stop failed), or the pipel
 and the committed store holds the old configuration (import failed: all-or-nothing, C15), or
 the new configuration was committed and only the restart failed. -/
 theorem C16_failed_apply_consistent_restart (v : Variant) (c : PipeCfg) (env : LiveEnv) (s : St) (old : Option PipeCfg)
-    (p : Pl) (hex : exportPl v s.mem c.id = .ok old) (hp : s.mem.pls c.id = some p)
-    (hrun : isRunningStatus p.status = true) (hne : build v 1 old c ≠ [])
-    (hnl : liveEligible (build v 1 old c) = false) :
+    (hex : exportPl v s.mem c.id = .ok old) (hrun : runningNow (flipState c env s) c.id = true)
+    (hne : build v 1 old c ≠ []) (hnl : liveEligible (build v 1 old c) = false) :
     let r := applyPlanLive v c (build v 1 old c) true env s
     r.1 ≠ .ok () →
-      r.2.1 = s ∨ r.2.1.kv = (setStatusRaw c.id 3 s).kv ∨ (Ev.commit ∈ r.2.2 ∧ env.startOk = false) := by
+      r.2.1 = flipState c env s ∨ r.2.1.kv = (setStatusRaw c.id 3 (flipState c env s)).kv ∨
+      (Ev.commit ∈ r.2.2 ∧ env.startOk = false) := by
   have hemp : (build v 1 old c).isEmpty = false := by
     cases h : build v 1 old c with
     | nil => exact absurd h hne
     | cons _ _ => rfl
   unfold applyPlanLive
-  simp only [hex, hemp, hp, hrun, hnl, ne_eq, not_true_eq_false, if_false, Option.map_some, Option.getD_some,
+  simp only [hex, hemp, hrun, hnl, ne_eq, not_true_eq_false, if_false,
     Bool.not_true, Bool.and_false, Bool.false_eq_true, List.nil_append]
   cases hs : env.stopOk with
   | false => simp
   | true =>
     simp only [Bool.not_true, Bool.false_eq_true, if_false]
     unfold tImport
-    have hstore := transactionalImport_store v c (setStatusRaw c.id 3 s)
-    rcases hr : transactionalImport v c (setStatusRaw c.id 3 s) with ⟨r, s'⟩
+    have hstore := transactionalImport_store v c (setStatusRaw c.id 3 (flipState c env s))
+    rcases hr : transactionalImport v c (setStatusRaw c.id 3 (flipState c env s)) with ⟨r, s'⟩
     rw [hr] at hstore
     cases r with
     | error e => intro _; exact Or.inr (Or.inl (hstore (by simp)))
     | ok u =>
       cases u
       cases hst : env.startOk <;> simp
+
+/-- the TOCTOU scenario evaluated: a stopped pipeline, an external `Start` in the window, no
+authorisation — refused, only the external flip is visible, no event. -/
+example :
+    let v := Variant.repaired
+    let s := after v st0 cfgB
+    let plan := match exportPl v s.mem 1 with | .ok old => build v 1 old cfgA | .error _ => []
+    let r := applyPlanLive v cfgA plan false { stopOk := true, startOk := true, reconf := [], becomesRunning := true } { s with ctr := 0 }
+    r.1 = .error .unauth ∧ r.2.2 = [] ∧ (r.2.1.mem.pls 1).map (·.status) = some 1 ∧
+      (r.2.1.mem.prs 16) = none := by
+  decide +kernel
 
 /-! ## the in-place path: the expected defect -/
 
